@@ -18,6 +18,7 @@ from ufl.argument import Argument
 from ufl.coefficient import Coefficient
 from ufl.constant import Constant
 from ufl.core.multiindex import FixedIndex, MultiIndex
+from ufl.geometry import GeometricQuantity
 from ufl.variable import Label
 
 
@@ -121,6 +122,32 @@ def _cmp_terminal_by_repr(a, b):
     return -1 if x < y else (0 if x == y else 1)
 
 
+def _domain_cmp_key(domain):
+    """Key that orders domains like their repr, but with mesh ids as integers."""
+    try:
+        meshes = domain.meshes
+    except NotImplementedError:
+        return None
+    return (
+        tuple(repr(m.ufl_coordinate_element()) for m in meshes),
+        tuple(m.ufl_id() for m in meshes),
+    )
+
+
+def _cmp_geometric_quantity(a, b):
+    """Cmp geometric quantity (a and b are of the same type)."""
+    # The repr of a geometric quantity is the repr of its domain, which
+    # ends with the global mesh id in decimal.  Comparing repr strings
+    # ("10" < "9") made the operand order, and hence the form signature,
+    # depend on how many meshes were created before.  Compare the
+    # coordinate elements first (as the repr did) and then the ids as
+    # integers; only fall back to repr for domains without that key.
+    x, y = _domain_cmp_key(a._domain), _domain_cmp_key(b._domain)
+    if x is not None and y is not None and x != y:
+        return -1 if x < y else 1
+    return _cmp_terminal_by_repr(a, b)
+
+
 # Hack up a MultiFunction-like type dispatch for terminal comparisons
 _terminal_cmps = {}
 _terminal_cmps[MultiIndex._ufl_typecode_] = _cmp_multi_index
@@ -128,6 +155,16 @@ _terminal_cmps[Argument._ufl_typecode_] = _cmp_argument
 _terminal_cmps[Coefficient._ufl_typecode_] = _cmp_coefficient
 _terminal_cmps[Constant._ufl_typecode_] = _cmp_constant
 _terminal_cmps[Label._ufl_typecode_] = _cmp_label
+
+
+def _register_geometric_quantities(cls):
+    """Use _cmp_geometric_quantity for cls and all its subclasses."""
+    _terminal_cmps[cls._ufl_typecode_] = _cmp_geometric_quantity
+    for sub in cls.__subclasses__():
+        _register_geometric_quantities(sub)
+
+
+_register_geometric_quantities(GeometricQuantity)
 
 
 def cmp_expr(a, b):
